@@ -8,7 +8,7 @@ PROPS = {
                         "Poseidon (chip, cpu, round skips), Keccak/SHA3, BLAKE2b"],
         "trusted_base": [],
         "assumptions": [],
-        "claim": "Proof, for ALL inputs of each function, that the off-circuit spread/limb kernels which fill the SHA-256/SHA-512/RIPEMD-160 lookup tables and compute every witness limb are the FIPS 180-4 / RIPEMD functions they stand for (spread/even-odd bijection, Maj, Ch identity, the four sigma functions on the chip's limb splits, limb recomposition and rotation). The in-circuit constraint emission, Poseidon, Keccak and BLAKE2b are NOT decided; a wrong rotation constant in a gate is not seen, one in these utilities is.",
+        "claim": "Proof, for ALL inputs of each function, that the off-circuit spread/limb kernels which fill the SHA-256/SHA-512/RIPEMD-160 lookup tables and compute every witness limb are the FIPS 180-4 / RIPEMD functions they stand for (spread/even-odd bijection, Maj, Ch identity, the four sigma functions on the chip's limb splits, limb recomposition and rotation). Added: the custom gates of the three chips (28 gate obligations, PolyVC: constraint ideal = ideal of a specification derived from FIPS rotation amounts and the limb layout), and the chunk-index arithmetic of VarLenPoseidonGadget::poseidon_varlen (the filler-zeroing branch is taken exactly on the last chunk; Kani slice, full usize domain). Cell assignment / copy-constraint wiring, message schedule wiring, padding, the Poseidon permutation, Keccak and BLAKE2b are NOT decided.",
         "level_note": "Kani/CBMC bit-precise over the full input domain of each function (loops bounded by the word width, unwinding assertions on); trusted: Kani+CBMC+SAT solver, rustc MIR semantics; the chips' use of these kernels is not verified.",
         "technique": "Kani function contracts and full-domain harnesses on the real functions (contract-based deductive verification)",
         "design_ref": "DESIGN.md section 5, C07",
@@ -21,19 +21,19 @@ PROPS["C12"] = {
                     "msm_specific / multi_exp (blst)", "EvaluationDomain algebra (generic + rayon)"],
     "trusted_base": [],
     "assumptions": [],
-    "claim": "Proof for the arithmetic kernels only: get_booth_index returns exactly the radix-2^c Booth digit for every 32-byte scalar, window size 1..24 and window; the window counts of msm_serial / msm_best always include the carry window; hence (Verus induction) the digits consumed by every Rust MSM path sum to the scalar; best_fft's bitreverse is the bit-reversal involution; the chunking arithmetic of parallelize / eval_polynomial partitions the slice exactly for every length and thread count. The bucket accumulation, butterflies and domain algebra are NOT decided.",
+    "claim": "Proof for the arithmetic kernels only: get_booth_index returns exactly the radix-2^c Booth digit for every 32-byte scalar, window size 1..24 and window; the window counts of msm_serial / msm_best always include the carry window; hence (Verus induction) the digits consumed by every Rust MSM path sum to the scalar; best_fft's bitreverse is the bit-reversal involution; the chunking arithmetic of parallelize / eval_polynomial partitions the slice exactly and hands every worker the global offset of its chunk, for every length and thread count (Verus, unbounded; the offset slices are functions of all locals in scope). The bucket accumulation, butterflies and domain algebra are NOT decided.",
     "level_note": "Kani/CBMC over the full input domain (loops bounded by 32 bytes / 64 bits, unwinding assertions on); bitreverse is a nested fn and is extracted verbatim into a stand-alone crate each run (enclosing function dropped). Trusted: Kani+CBMC, rustc MIR.",
     "technique": "Kani function contract on get_booth_index + full-domain harnesses; Verus integer lemmas (contract-based deductive verification)",
     "design_ref": "DESIGN.md section 5, C12",
 }
 PROPS["C19"] = {
     "units": {"kani": ["c19_base64", "c19_automaton", "c19_complete_flag"]},
-    "scope": "the base64 alphabet table and the derived two-character lookup table used by the in-circuit base64 chip",
+    "scope": "the base64 alphabet table and the derived two-character lookup table used by the in-circuit base64 chip; flag / marker-set bookkeeping of the raw-automaton constructions",
     "not_decided": ["regex -> automaton pipeline (determinisation, minimisation, complement, marker-aware intersection over hash sets)",
                     "the in-circuit parser and base64 chip", "shipped serialized automata", "decode_char (lazy_static HashMap)", "two_entry_table (4096-element Vec construction: CBMC does not finish, Verus cannot ingest the iterator loops)"],
     "trusted_base": [],
     "assumptions": [],
-    "claim": "Proof for the base64 alphabet kernel only: BASE64_TABLE is exactly the RFC 4648 section 4 alphabet (a bijection onto 0..64) and two_entry_default is the key of value 0; two_entry_table itself is out of reach of both tools and is reported uncovered. The regex/automaton pipeline and the in-circuit parser/base64 chip are NOT decided: they are whole-language properties with no per-function contract within reach.",
+    "claim": "Proof for the base64 alphabet kernel only: BASE64_TABLE is exactly the RFC 4648 section 4 alphabet (a bijection onto 0..64) and two_entry_default is the key of value 0; two_entry_table itself is out of reach of both tools and is reported uncovered. Added (bounded stand-ins and slices, NOT a proof of the pipeline): loop_on_initial and Letter::encode/decode on small automata; the `complete` flag of concat / inter / powerset_construction / leaf constructors is set only when the construction guarantees completeness, completion always covers the unmarked letters, and the universal automaton records marker 0 (field / let slices; the construction lemmas behind the flag contracts are hand arguments, trusted). The regex/automaton pipeline as a whole (language equivalence, determinisation, minimisation) and the in-circuit parser/base64 chip are NOT decided: they are whole-language properties with no per-function contract within reach.",
     "level_note": "Kani/CBMC with symbolic indices over the real constant and the real table-construction function; trusted: Kani+CBMC, rustc MIR. Thin by admission.",
     "technique": "Kani full-domain harnesses against a range-defined RFC 4648 spec (contract-based deductive verification)",
     "design_ref": "DESIGN.md section 5, C19",
@@ -41,12 +41,12 @@ PROPS["C19"] = {
 PROPS["C16"] = {
     "units": {"kani": ["c16_serialization", "c16_pack", "c10_bytes", "c16_arch_columns", "c16_zkir_arity"], "polyvc": ["c11_bls", "c16_zkir_routing"]},
     "scope": "pure-Rust byte decoders: the automaton Serialize::deserialize family, pack/unpack of selector bytes, and (shared with C10) the canonical-field-encoding decoders",
-    "not_decided": ["VerifyingKey::read_from_cs, bincode itself, the rest of ZkStdLib::configure, ParamsKZG::read_custom, IR loading: generic / iterator / FFI code",
+    "not_decided": ["VerifyingKey::read_from_cs, bincode itself, the rest of ZkStdLib::configure, ParamsKZG::read_custom: generic / iterator / FFI code", "that Instruction::check_arity accepts only what the off-circuit / in-circuit IR parsers can process without panicking",
                     "the fixed-commitment-count panic described in the property text (verifier.rs indexes vk.fixed_commitments) is NOT reachable by this family; the out-of-range column-count one is (and was repaired)",
                     "G1/G2 point decoders (blst)"],
     "trusted_base": [],
     "assumptions": [],
-    "claim": "Proof (Kani, bounded only in buffer length) that the pure-Rust byte decoders are total and canonical: every Serialize::deserialize instance returns Ok/Err for every buffer, advances by exactly the encoded size and never allocates from an unchecked length; pack/unpack are exact inverses on their documented domain; field decoders accept exactly the canonical encodings (see C10); every public checked point decoder of G1/G2 routes through the on-curve / subgroup checks (see C11); the architecture-descriptor decoder only returns descriptors on which ZkStdLib::configure does not panic. The body of VerifyingKey::read_from_cs (e.g. a fixed-commitment count that disagrees with the circuit), ParamsKZG::read_custom and IR loading are NOT decided.",
+    "claim": "Proof (Kani, bounded only in buffer length) that the pure-Rust byte decoders are total and canonical: every Serialize::deserialize instance returns Ok/Err for every buffer, advances by exactly the encoded size and never allocates from an unchecked length; pack/unpack are exact inverses on their documented domain; field decoders accept exactly the canonical encodings (see C10); every public checked point decoder of G1/G2 routes through the on-curve / subgroup checks (see C11); the architecture-descriptor decoder only returns descriptors on which ZkStdLib::configure does not panic. Added: the three ZKIR program decoders (read_relation / read / from_instructions) return Ok exactly when decoding succeeds AND every instruction passes check_arity, from_instructions is the only constructor of ZkirRelation, and Arity::check is the documented predicate (full usize domain). The body of VerifyingKey::read_from_cs (e.g. a fixed-commitment count that disagrees with the circuit), ParamsKZG::read_custom, bincode / serde_json themselves and whether check_arity's table is what the IR parsers need are NOT decided.",
     "level_note": "Kani/CBMC; buffer items are bounded (length <= 24 bytes, content and length symbolic) and reported under `bounded`, never counted as proved; pack/unpack and the field decoders are full-domain. format! on error paths is stubbed.",
     "technique": "Kani harness-form contracts on the real decoders (contract-based deductive verification; bounded stand-in for buffer length)",
     "design_ref": "DESIGN.md section 5, C16",
@@ -80,7 +80,7 @@ PROPS["C11"] = {
     "design_ref": "DESIGN.md section 1.3 and section 5, C11",
 }
 PROPS["C06"] = {
-    "units": {"polyvc": ["c06_edwards_gates"], "kani": ["c06_mul_by_constant"]},
+    "units": {"polyvc": ["c06_edwards_gates", "c06_foreign_preconditions"], "kani": ["c06_mul_by_constant"]},
     "scope": "the three custom gates of the native (Jubjub) Edwards chip: doubling, conditional addition, curve membership",
     "not_decided": ["that the assignment code puts the right values in the queried cells and copies them correctly (region API)",
                     "scalar-multiplication loop structure, MSM, fixed-base tables", "every foreign-curve gate (secp256k1, BLS12-381 emulation)",
@@ -88,7 +88,7 @@ PROPS["C06"] = {
     "trusted_base": [],
     "assumptions": ["the denominators 1 +- d x1 x2 y1 y2 are units for points on the curve (d is a non-square): number-theoretic, assumed",
                     "the conditional-add gate's bit b is boolean (constrained where the bit is assigned, not by this gate)"],
-    "claim": "Proof, for the native Edwards gates only, that each gate's constraint ideal contains the cleared-denominator twisted-Edwards law for the cells it queries (soundness of one activation) and that the honest values satisfy every constraint (completeness). Everything about how cells are assigned and wired, scalar multiplication structure, and every foreign-curve gadget is NOT decided.",
+    "claim": "Proof, for the native Edwards gates only, that each gate's constraint ideal contains the cleared-denominator twisted-Edwards law for the cells it queries (soundness of one activation) and that the honest values satisfy every constraint (completeness). Added: ForeignEccChip::mul_by_constant rebuilds its constant correctly (statement slice; Kani), and the ForeignEccChip functions that document preconditions (incomplete_add, assert_add, assert_slope, ...) are called only from the call sites for which those preconditions are argued (call-site ledger; the arguments themselves are hand arguments, trusted; a new call site is reported only when the MockProver witness finds a failing input). Everything else about how cells are assigned and wired, scalar multiplication structure, and the foreign-curve gates is NOT decided.",
     "level_note": "PolyVC on the gate closures extracted verbatim; goals decided by exact Groebner reduction (sympy). Trusted: PolyVC parser/executor, sympy.",
     "technique": "contract-based VC generation over gate polynomials (ideal membership by Groebner reduction)",
     "design_ref": "DESIGN.md section 5, C06",
@@ -100,8 +100,8 @@ PROPS["C05"] = {
                     "every foreign-field / BigUint gate, range check, quotient and carry constraint", "equality / public-input exposure of emulated elements"],
     "trusted_base": [],
     "assumptions": ["std::cmp::max returns the larger argument (assume_specification; vstd has none)"],
-    "claim": "Proof for one kernel only (thin by admission): bound_of_addition returns, for all inputs, a true upper bound on the bit size of a sum and the smallest such bound, without u32 overflow. A `max` without the `+ 1` keeps every honest-witness test green and makes the lazy normalisation unsound; that is what this contract pins down. The CRT identity, all gates, range checks and quotient/carry handling of the foreign-field and BigUint gadgets are NOT decided.",
-    "level_note": "Verus/Z3 on the function extracted verbatim; one assumed specification (std::cmp::max). Trusted: Verus+Z3, the extraction scanner.",
+    "claim": "Proof for one kernel only (thin by admission): bound_of_addition returns, for all inputs, a true upper bound on the bit size of a sum and the smallest such bound, without u32 overflow. A `max` without the `+ 1` keeps every honest-witness test green and makes the lazy normalisation unsound; that is what this contract pins down. Added: the weights with which FieldChip::assigned_from_le_bytes / assigned_from_le_bits recombine chunks (chunk length, per-chunk exponent, per-byte / per-bit weight) are proved, over the full u32 domain of LOG2_BASE, to be those of the little-endian value (sub-expression slices; Kani). The CRT identity, all gates, range checks and quotient/carry handling of the foreign-field and BigUint gadgets are NOT decided.",
+    "level_note": "Verus/Z3 on the function extracted verbatim; one assumed specification (std::cmp::max); Kani on sub-expression slices (loop-free, full domain). Trusted: Verus+Z3, the extraction scanner.",
     "technique": "Verus contract (requires/ensures over pow2 with soundness and minimality lemmas) on the extracted function",
     "design_ref": "DESIGN.md section 5, C05",
 }
